@@ -45,7 +45,7 @@ def _extra_replace():
 
 
 CFG = dict(
-    id="C17", props="Props/C17.v", harness="c17", shims=["c2__cfg--c17.go"], tags="verif",
+    id="C17", props="Props/C17.v", harness="c17", shims=["c2__cfg--c17.go", "c2--c17.go"], tags="verif",
     extra_replace=_extra_replace,
     trusted_base=[
         "sort.Sort (Go stdlib) returns a permutation sorted w.r.t. Less when Less is a strict weak order (proved for Group.Less); "
